@@ -162,3 +162,124 @@ func TestC03Concurrent(t *testing.T) {
 		Gen:  genC03Concurrent, Exec: execC03Concurrent,
 	})
 }
+
+// ------------------------------------------------------------------ racing submissions
+
+// C03ConcurrentPuts: two requests update the same source alert at the same time (a re-send as firing inside a large
+// batch, and its resolution). Whatever the interleaving, once both have returned and the inhibitor has caught up, its
+// verdict follows what the provider holds.
+
+type c03pScenario struct {
+	Batch     int  `json:"batch"`      // alerts in the large request; the contested source is its last one
+	ResolveIs bool `json:"resolve_is"` // true: the small request resolves (large one re-sends firing); false: the small one re-fires a resolved source (large one carries the resolution)
+}
+
+func genC03ConcurrentPuts(t *rapid.T) c03pScenario {
+	return c03pScenario{Batch: rapid.SampledFrom([]int{50, 1000, 4000}).Draw(t, "batch"), ResolveIs: rapid.Bool().Draw(t, "resolveIs")}
+}
+
+type c03pCallback struct {
+	fp     model.Fingerprint
+	seen   chan struct{}
+	fired  bool
+	waitMs int
+}
+
+func (c *c03pCallback) PreStore(a *alert.Alert, _ bool) error {
+	if !c.fired && a.Fingerprint() == c.fp && a.Annotations["req"] == "large" {
+		c.fired = true
+		close(c.seen)
+	}
+	return nil
+}
+func (c *c03pCallback) PostStore(*alert.Alert, bool) {}
+func (c *c03pCallback) PostDelete(*alert.Alert)      {}
+func (c *c03pCallback) PostGC(model.Fingerprints)    {}
+
+func execC03ConcurrentPuts(sc c03pScenario) (res pbt.Result) {
+	ctx, cancel := context.WithCancel(context.Background())
+	defer cancel()
+	source := model.LabelSet{"kind": "source", "cluster": "c1", "n": "contested"}
+	target := model.LabelSet{"kind": "target", "cluster": "c1"}
+	cb := &c03pCallback{fp: source.Fingerprint(), seen: make(chan struct{})}
+	alerts, err := mem.NewAlerts(ctx, time.Hour, 0, cb, nopLog, eventrecorder.NopRecorder(), prometheus.NewRegistry(), featurecontrol.NoopFlags{})
+	if err != nil {
+		res.Fail("harness", "mem.NewAlerts: %v", err)
+		return res
+	}
+	defer alerts.Close()
+	eq := func(n, v string) amcommoncfg.Matchers {
+		m, _ := labels.NewMatcher(labels.MatchEqual, n, v)
+		return amcommoncfg.Matchers{m}
+	}
+	rule := amcommoncfg.InhibitRule{SourceMatchers: eq("kind", "source"), TargetMatchers: eq("kind", "target"), Equal: []string{"cluster"}}
+	ih := inhibit.NewInhibitor(alerts, []amcommoncfg.InhibitRule{rule}, nopLog, eventrecorder.NopRecorder())
+	go ih.Run()
+	defer ih.Stop()
+	ih.WaitForLoading()
+	t0 := time.Now()
+	mk := func(ls model.LabelSet, firing bool, upd time.Time, req string) *alert.Alert {
+		a := &alert.Alert{Alert: model.Alert{Labels: ls, StartsAt: t0.Add(-time.Minute), EndsAt: upd.Add(time.Hour), Annotations: model.LabelSet{"req": model.LabelValue(req)}}, UpdatedAt: upd}
+		if !firing {
+			a.EndsAt = t0.Add(-time.Millisecond) // (the update times lie a second or two ahead: the end must not)
+		}
+		return a
+	}
+	// the source as stored before the race
+	alerts.Put(ctx, mk(source, sc.ResolveIs, t0, "initial"))
+	var large []*alert.Alert
+	for i := 0; i < sc.Batch; i++ {
+		large = append(large, mk(model.LabelSet{"kind": "bystander", "cluster": "other", "n": model.LabelValue(fmt.Sprint(i))}, true, t0.Add(time.Second), "large"))
+	}
+	// large request: received first (older update time); small request: received second
+	large = append(large, mk(source, sc.ResolveIs, t0.Add(time.Second), "large"))
+	small := mk(source, !sc.ResolveIs, t0.Add(2*time.Second), "small")
+	done := make(chan struct{}, 2)
+	go func() { alerts.Put(ctx, large...); done <- struct{}{} }()
+	go func() {
+		select {
+		case <-cb.seen:
+		case <-time.After(10 * time.Second):
+		}
+		alerts.Put(ctx, small)
+		done <- struct{}{}
+	}()
+	<-done
+	<-done
+	cur, err := alerts.Get(source.Fingerprint())
+	if err != nil {
+		res.Fail("harness", "provider lost the contested source: %v", err)
+		return res
+	}
+	want := cur.EndsAt.After(time.Now())
+	deadline := time.Now().Add(3 * time.Second)
+	okSince := time.Time{}
+	var got bool
+	for time.Now().Before(deadline) {
+		got = ih.Mutes(marker.WithContext(context.Background(), marker.NewAlertMarker()), target)
+		if got == want {
+			if okSince.IsZero() {
+				okSince = time.Now()
+			} else if time.Since(okSince) > 150*time.Millisecond {
+				break
+			}
+		} else {
+			okSince = time.Time{}
+		}
+		time.Sleep(5 * time.Millisecond)
+	}
+	if got != want || okSince.IsZero() {
+		res.Add(pbt.V("verdict-follows-stale-publication", "two requests updated the source alert at the same time (a batch of %d ending with it, and a single update received later): the provider holds it %s, but 3 s later Mutes(target)=%v", sc.Batch+1, map[bool]string{true: "firing", false: "resolved"}[want], got).With("batch", sc.Batch))
+	}
+	res.NonTrivial = sc.Batch >= 1000
+	res.Class(fmt.Sprintf("batch-%d", sc.Batch))
+	return res
+}
+
+func TestC03ConcurrentPuts(t *testing.T) {
+	pbt.Run(t, pbt.Spec[c03pScenario]{
+		Property: "C03", Name: "C03ConcurrentPuts",
+		Rule: "a real provider, a running Inhibitor and one rule; a large Put (50-4000 bystanders followed by a version of the contested source alert) races a single Put of the next version of that source (started when the provider is about to store the large request's version): one is its resolution, the other a firing re-send. After both returned, the verdict for the target must become within 3 s, and then stay for 150 ms, what the provider's stored version says. Real scheduler; built with -race in the thorough tier. Non-trivial: the large request has at least 1000 alerts.",
+		Gen:  genC03ConcurrentPuts, Exec: execC03ConcurrentPuts,
+	})
+}
